@@ -160,7 +160,26 @@ fn check_c10(text: &str, model: &MField, subst: bool) -> Vec<Viol> {
     if got != *model {
         out.push(viol("lossless-reads-model", format!("field {:?}: got {:?} want {:?}", text, got, model)));
     }
-    if model.substvars.is_empty() {
+    // a line break between the items of an architecture / profile list is error-free for the lossless reader, but the
+    // statement promises free newlines only around separators, so the lossy reader is not required to take it
+    let newline_inside_list = {
+        let mut depth = 0i32;
+        let mut in_parens = false;
+        let mut hit = false;
+        for ch in text.chars() {
+            match ch {
+                '(' => in_parens = true,
+                ')' => in_parens = false,
+                _ if in_parens => {} // '<' and '>' inside a version constraint are operators
+                '[' | '<' => depth += 1,
+                ']' | '>' => depth -= 1,
+                '\n' if depth > 0 => hit = true,
+                _ => {}
+            }
+        }
+        hit
+    };
+    if model.substvars.is_empty() && !newline_inside_list {
         match ly::Relations::from_str(text) {
             Ok(l) => {
                 let g = read_ly(&l);
